@@ -40,4 +40,12 @@ def v3Around (p : V3Params) (msgData : Bytes) : Bytes :=
 
 def v3Plain (p : V3Params) (r : Ops.PduReq) : Option Bytes := (scopedBytes p r).map (v3Around p)
 
+/-- the discovery probe of `send_discovery_message` (RFC 3414 section 4): noAuthNoPriv but reportable,
+    zero-length engine id and user name, boots = time = 0, a GetRequest without bindings whose
+    request-id is the message id; flags through the generated `V3Flags.__bytes__` -/
+def probeParams (rid : Int) : V3Params :=
+  ⟨rid, Gen.messageMaxSize, (Gen.flagsEncode false false true).toNat, [], 0, 0, [], [], [], [], []⟩
+
+def probe (rid : Int) : Option Bytes := v3Plain (probeParams rid) ⟨.get, rid, 0, 0, []⟩
+
 end Snmp.Emit
